@@ -71,6 +71,10 @@ class HarnessError(Exception):
     """Something is wrong with the harness or environment (exit 2, never a VIOLATION)."""
 
 
+class _ShrinkBudgetUsedUp(BaseException):
+    """Raised inside a Hypothesis test to end shrinking (BaseException: Hypothesis lets it through)."""
+
+
 class Violation(Exception):
     def __init__(self, check: str, message: str, case: typ.Any = None, signature: str | None = None):
         super().__init__(f"[{check}] {message}")
@@ -78,6 +82,7 @@ class Violation(Exception):
         self.message = message
         self.case = case
         self.signature = signature
+        self.drawn = None
 
 
 # --------------------------------------------------------------------------------------------
@@ -217,7 +222,9 @@ class Ctx:
             self.known_hits[signature] += 1
             self.excluded_known += 1
             return
-        raise Violation(check, message, case if case is not None else self.current, signature)
+        v = Violation(check, message, case if case is not None else self.current, signature)
+        v.drawn = self.current       # what the part's check function was called with (always replayable)
+        raise v
 
     def result(self) -> dict:
         return {
@@ -288,6 +295,12 @@ def run_given(ctx: Ctx, name: str, strategy, check, max_examples: int, shrink: b
     if shrink and not os.environ.get("CPV_NO_SHRINK"):
         phases.append(Phase.shrink)
 
+    # Shrinking is bounded by a wall-clock budget that starts at the FIRST failure: when it is used up the
+    # smallest failing case found so far is reported.  The clock only truncates the minimisation of a case that
+    # has already failed; it never enters a verdict.
+    budget = float(os.environ.get("CPV_SHRINK_BUDGET_S") or (40 if ctx.tier == "quick" else 240))
+    state: dict = {"first": None, "last": None}
+
     @hypothesis.seed(ctx.sub_seed(name))
     @settings(max_examples=max_examples, database=None, deadline=None, derandomize=False,
               report_multiple_bugs=False, print_blob=False, phases=phases,
@@ -296,10 +309,22 @@ def run_given(ctx: Ctx, name: str, strategy, check, max_examples: int, shrink: b
                                      HealthCheck.function_scoped_fixture])
     @given(strategy)
     def test(case):
+        if state["first"] is not None and time.monotonic() - state["first"] > budget:
+            raise _ShrinkBudgetUsedUp()
         ctx.current = case
-        check(ctx, case)
+        try:
+            check(ctx, case)
+        except Violation as v:
+            if state["first"] is None:
+                state["first"] = time.monotonic()
+            state["last"] = v
+            v.drawn = case
+            raise
 
-    test()
+    try:
+        test()
+    except _ShrinkBudgetUsedUp:
+        raise state["last"] from None
 
 
 def run_machine(ctx: Ctx, name: str, machine_cls, max_examples: int, step_count: int,
